@@ -8,6 +8,7 @@ import re
 
 from ..astq import body_walk, dotted, src
 from ..hashmodel import full_model
+from ..cfg import CFG
 from ..loader import Undecided
 from ..report import Check
 
@@ -295,6 +296,30 @@ def r11_cache_not_stale(chk: Check):
     r3_cache(chk)
 
 
+def r12_default_equality(chk: Check):
+    """The skip-if-equal-to-default rule relies on configuration equality: it must distinguish classes exactly and compare every argument"""
+    from ..dataflow import path_traces
+
+    tree = chk.tree
+    f = tree.func("core.objects", "TypeConfig.__eq__")
+    ts = path_traces(f.node)
+    loc = chk.loc(f.module, f.node)
+    cls_atoms = ("self.__class__ == <p1>.__class__", "<p1>.__class__ == self.__class__", "type(self) == type(<p1>)", "type(self) is type(<p1>)", "self.__class__ is <p1>.__class__")
+    ok = bool(ts)
+    for t in ts:
+        eqs = [c for c in t.conds if c[0] in cls_atoms]
+        if t.end == "return True":
+            ok = ok and bool(eqs) and eqs[0][1] is True
+        if eqs and eqs[0][1] is False:
+            ok = ok and t.end == "return False"
+    ok = ok and any(c[0] in cls_atoms for t in ts for c in t.conds)
+    chk.require(ok, chk.fkey(f, "exact class"), f"TypeConfig.__eq__ must return False unless both configurations have exactly the same class ({[(t.conds[:1], t.end) for t in ts][:3]}): with isinstance, a value of a derived type whose "
+                "inherited parameters match a Config-valued default compares equal to that default and is left out of the identifier", loc)
+    g = CFG(f.node)
+    loops = [n for n in g.live if n.kind == "for" and src(n.ast.iter) == "self.__xpm__.xpmvalues()"]
+    chk.require(len(loops) == 1, chk.fkey(f, "all arguments"), "TypeConfig.__eq__ must compare every argument value", loc)
+
+
 RULES = [
     ("R1", "tags are pairwise distinct single bytes below 0x20; each value kind starts with its own tag; NAME is not a value tag", r1_tags),
     ("R2", "scalar payloads are lossless (int: 64-bit integer pack, float: double, str: utf-8 of the whole text)", r2_scalars),
@@ -306,5 +331,6 @@ RULES = [
     ("R8", "full identifier: raw digest, sorted pre-task digests, INIT_TASKS marker + init-task digests in given order", r8_full),
     ("R10", "argument-loop decision table: every argument the documented rule puts in the signature is hashed, for all consistent assignments of the atoms (shared walker with C02.R2, other direction)", r10_relevant_arguments_hashed),
     ("R11", "the identifier cache cannot hold a value computed before the signature was complete (shared with C01.R3: only identifiers() writes it, under _sealed)", r11_cache_not_stale),
+    ("R12", "configuration equality (used by the skip-if-default rule) is exact-class and compares every argument", r12_default_equality),
     ("R9", "no framing conflict (FIRST/FOLLOW of variable-length constructs) outside the two domain exclusions of the property", r9_framing),
 ]
